@@ -259,6 +259,31 @@ def drop_schema_cascade(expression: exp.Expression) -> exp.Expression:
     return new
 
 
+def current_database_schema(expression: exp.Expression, has_database: bool, has_schema: bool) -> exp.Expression:
+    """CURRENT_DATABASE() and CURRENT_SCHEMA() are NULL when the session has no current database / schema.
+
+    duckdb always has a current database and schema (memory.main after connecting without a database, <database>.main
+    after USE DATABASE), which are not the session's.
+    """
+
+    if (
+        isinstance(expression, exp.Anonymous)
+        and isinstance(expression.this, str)
+        and not expression.expressions
+        and (
+            (expression.this.upper() == "CURRENT_DATABASE" and not has_database)
+            or (expression.this.upper() == "CURRENT_SCHEMA" and not has_schema)
+        )
+    ):
+        null = exp.Cast(this=exp.Null(), to=exp.DataType(this=exp.DataType.Type.VARCHAR, nested=False, prefix=False))
+        if isinstance(expression.parent, exp.Select):
+            # keep the name the column has when the function is evaluated
+            return exp.alias_(null, f"{expression.this}()", quoted=True)
+        return null
+
+    return expression
+
+
 def dateadd_date_cast(expression: exp.Expression) -> exp.Expression:
     """Cast result of DATEADD to DATE if the given expression is a cast to DATE
        and unit is either DAY, WEEK, MONTH or YEAR to mimic Snowflake's DATEADD
